@@ -16,6 +16,10 @@ CHECKS = {
    technique="explicit-state breadth-first search with exact state deduplication over the real persistent hash multi-map (scaled minimum capacity) + exhaustive grid of insert/lookup/remove cycle families at the real constants through the public API, with a deterministic probe-step budget as termination oracle",
    text="(a) 40 families (alias map | index value map) x live-set size {0,1,5,30,59} x remove oldest|newest x distinct | all-colliding-mod-64 keys, each 200 (quick) / 2000 (thorough) insert+lookup+remove cycles through Db queries at the real table constants (capacity 64, load 15/16), every query under a budget of 200000 probe steps; (b) BFS over the real MultiMapStorage<u64,u64> with the minimum capacity overridden to 4 (hook), 5 keys x 2 values, <=5 (quick) / <=7 (thorough) entries, once with the operation profile DbIndex uses and once with the profile MapImpl (alias maps) uses, visited set keyed by a 128-bit hash of the raw storage, every state compared with a BTreeMap model and every operation and lookup under a budget of 10000 probe steps.",
    note="Termination oracle: exceeding the probe budget (hook counters in the hash-probe, rehash and edge-list loops) is deemed non-termination. (b) runs at scaled capacity: only operation profiles that the database layer really issues are explored, so that a hang reachable only through unused collection methods (MultiMap iter_key over a table without empty slots, reachable via contains_value) is not reported. The BFS is capped by a state count; the evidence reports the fully covered depth."),
+ "C23": dict(level="model_checking", engine="core_checks", design="§4/C23",
+   technique="stateless schedule exploration of real OS threads under a baton scheduler (controlled scheduler at the hooked file-system calls of the read path), all interleavings / preemption-bounded, replay-checked",
+   text="Real threads read through one shared FileStorage / Arc<RwLock<DbFile>>; every hooked try_lock, fallback open, seek and read of FileStorage::read is a scheduling point owned by the harness. Storage-level harnesses (2 threads x 2 reads of overlapping regions; 3 threads x 1 read of distinct and identical regions): preemption bound 3 (quick) / all interleavings (thorough). Query-level harnesses (select values vs search; select aliases vs index search vs read transaction; thorough: 2 queries per thread): preemption bound 1 (quick) / 2 (thorough). Every thread's results must equal the same calls run alone and none may fail; a failing schedule is re-executed and must reproduce.",
+   note="Interleavings inside one system call are not explored; there is no shared mutable memory on this path (safe Rust), the shared state is the kernel file cursor. The evidence reports how many reads found the shared handle busy (contention really explored)."),
  "C32": dict(level="fault_enumeration", engine="core_checks", design="§3, §4/C32",
    technique="bounded-exhaustive query histories x exhaustive single-fault injection at every storage write/resize call of the last step (public StorageData wrapper around the real FileStorage), follow-up step, close and reopen",
    text="Every history of <=1 (quick) / <=2 (thorough) steps over H from 4 base states runs on DbImpl<Faulty(FileStorage)>; for the last step each of its storage write/resize calls (up to ~750 per step) fails once without being performed; the query must return Err, the canonical dump must be unchanged, each follow-up step (1 quick / 6 thorough) must behave exactly as on a never-faulted database, and after close + reopen the follow-up's effect must be present. Every step runs under a probe budget so hangs are reported.",
@@ -46,11 +50,11 @@ CHECKS = {
    note="as C08"),
  "C11": dict(level="model_checking", engine="core_checks", design="§4/C08-C11,C18",
    technique="bounded-exhaustive command sequences on the real database in lock-step with a reference model (index set over current values)",
-   text="Every sequence of <=4 / <=5 commands over a 16-command alphabet (value insert/replace/remove on indexed and non-indexed keys, element removal incl. cascaded edges, index create/remove/create-again, aborted and committing transactions mixing them) from 2 base states; after every command: index listing = per indexed key the number of elements having it, index search for 3 keys x 3 values = exactly the elements whose current value matches (error iff no such index), duplicate index creation rejected.",
+   text="Every sequence of <=5 / <=6 commands over a 16-command alphabet (value insert/replace/remove on indexed and non-indexed keys, element removal incl. cascaded edges, index create/remove/create-again, aborted and committing transactions mixing them) from 2 base states; after every command: index listing = per indexed key the number of elements having it, index search for 3 keys x 3 values = exactly the elements whose current value matches (error iff no such index), duplicate index creation rejected.",
    note="as C08"),
  "C18": dict(level="model_checking", engine="core_checks", design="§4/C08-C11,C18",
    technique="bounded-exhaustive command sequences on the real database in lock-step with a reference model; elements search compared at every state incl. all offset/limit pairs",
-   text="At every state reached by <=4 / <=5 commands of the C08 alphabet (removals, id reuse) `search().elements()` must list exactly the existing elements in increasing order of |id|; with node(), edge() and keys() conditions exactly the matching ones in that order; and for every (offset, limit) in [0..n+1]^2 the corresponding slice.",
+   text="At every state reached by <=5 / <=6 commands of the C08 alphabet (removals, id reuse) `search().elements()` must list exactly the existing elements in increasing order of |id|; with node(), edge() and keys() conditions exactly the matching ones in that order; and for every (offset, limit) in [0..n+1]^2 the corresponding slice.",
    note="as C08"),
  "C13": dict(level="model_checking", engine="core_checks", design="§4/C13",
    technique="bounded-exhaustive enumeration of aborted transaction bodies and partially failing queries from all states of a bounded history tree, on the real database",
